@@ -153,6 +153,16 @@ def writeback_traces():
     return T
 
 
+def canaries(tier="quick"):
+    """engine canary: the accelerometer model with the wrong sign of gravity must be refuted with a witness"""
+    def b_acc(x, g):
+        f = sim.measure_accel()
+        y = f(x, g, 0, ca.SX.zeros(3, 1))
+        return {"y": y, "wrong": spec.R_mrp(x[0:3]).T @ ca.vertcat(0, 0, g)}
+
+    return [_Trace("C12.canary.accel-sign", [x_sort(), Pos("g")], b_acc, [Ob("accelerometer = R^T (+g e3) [false]", "y", "wrong")], decide=CLOSED)]
+
+
 def traces(tier="quick"):
     return sens_traces() + writeback_traces()
 
